@@ -85,6 +85,8 @@ pub fn op(mix: Mix) -> BoxedStrategy<Op> {
     if mix.finalizers {
         v.push((5, (any::<u8>(), any::<u8>()).prop_map(|(m, root)| Op::AddFinalizer { m, root }).boxed()));
         v.push((4, (any::<u8>(), any::<u8>(), 0u8..8).prop_map(|(m, root, n)| Op::PopFinalized { m, root, n }).boxed()));
+        v.push((3, (any::<u8>(), any::<u8>()).prop_map(|(m, root)| Op::GetFinalizersFor { m, root }).boxed()));
+        v.push((1, Just(Op::GetAllFinalizers).boxed()));
     }
     if mix.weak {
         v.push((2, (any::<u8>(), any::<u8>()).prop_map(|(m, root)| Op::ClearReferent { m, root }).boxed()));
